@@ -151,22 +151,48 @@ class SubsetSys(HSystem):
     CALLS = [('exactsum', (1, 2, 3), 3), ('exactsum', (1, 2, 3), 4), ('exactsum', (2, 2, 5), 7), ('exactsum', (2, 2), 3),
              ('exactsum', (5, 3, 1), 1), ('dynprog', (1, 2, 3), 3), ('dynprog', (2, 2, 5), 4), ('dynprog', (2, 2), 3)]
 
+    SHARED = [(1, 2, 3), (1, 2, 40), (7, 2, 3)]       # contents given to one caller-owned list object, in place
+
     def fresh(self):
-        return {'K': fresh_knapsack()}
+        return {'K': fresh_knapsack(), 'L': items_of(self.SHARED[0]), 'ver': 0, 'last': None}
 
     def canon(self, o):
         K = o['K']
-        return (canon(K.exactsum.__defaults__), canon(K.dynprog.__defaults__))
+        return (canon(K.exactsum.__defaults__), canon(K.dynprog.__defaults__), canon(getattr(K.exactsum, '__dict__', {})), o['ver'],
+                len(o['last']) if isinstance(o['last'], list) else repr(o['last']))
 
     def events(self, o):
-        return list(self.CALLS)
+        return list(self.CALLS) + [('shared-list', 'exactsum', 43), ('shared-list', 'dynprog', 43), ('shared-list', 'exactsum', 5), ('shared-list', 'dynprog', 12),
+                                   ('overwrite-shared-list',), ('scribble-last-result',)]
 
     def apply(self, o, ev):
+        if ev[0] == 'overwrite-shared-list':
+            o['ver'] = (o['ver'] + 1) % len(self.SHARED)
+            o['L'][:] = items_of(self.SHARED[o['ver']])        # same list object, same length, other couples
+            return None
+        if ev[0] == 'scribble-last-result':
+            if isinstance(o['last'], list):
+                o['last'].append(('junk', 1000))
+                if len(o['last']) > 1:
+                    o['last'].pop(0)
+            return None
+        if ev[0] == 'shared-list':
+            v = getattr(o['K'], ev[1])(o['L'], ev[2])
+            o['last'] = v
+            o['items'] = list(items_of(self.SHARED[o['ver']]))
+            return list(v) if isinstance(v, list) else v
         f = getattr(o['K'], ev[0])
         v = f(items_of(ev[1]), ev[2])
+        o['last'] = v
         return list(v) if isinstance(v, list) else v
 
     def judge(self, ctx, hist, ev, res, o):
+        if ev[0] in ('overwrite-shared-list', 'scribble-last-result'):
+            return
+        if ev[0] == 'shared-list':
+            judge_subset(ctx, 'C20/history/%s/caller-owned-list' % ev[1], o['items'], ev[2], res, ev[1] == 'dynprog')
+            ctx.eq('C20/history/%s/caller-owned-list/input-mutated' % ev[1], list(o['L']), o['items'])
+            return
         items = items_of(ev[1])
         judge_subset(ctx, 'C20/history/%s' % ev[0], items, ev[2], res, ev[0] == 'dynprog')
         K2 = fresh_knapsack()
@@ -192,7 +218,7 @@ def subchecks():
         Sub('subset-sum', pts_subset, run_subset, engine='D',
             bound='every item list of length 0..5 (thorough 0..6) with weights in {1,2,3,5} x every target 0..sum+1 (exactsum: 1..sum+1), each on a freshly loaded module'),
         hsub('call-histories', systems, lambda tier: 3 if tier == 'quick' else 4,
-             bound='8 exactsum/dynprog calls, all histories to depth 3 (thorough 4) on one loaded module, deduplicated by the functions\' default-argument state'),
+             bound='8 exactsum/dynprog calls, 4 calls on one caller-owned list object, overwriting that list in place, scribbling on the last returned result; all histories to depth 3 (thorough 4) on one loaded module, deduplicated by the functions\' default-argument state'),
     ]
 
 
